@@ -67,7 +67,7 @@ class Operator(Token):
 
     def process(self, match, context=None):
         if self._re_process:
-            s = match.groups()[0].replace(self._replace, '')
+            s = ''.join(match.groups()[0].split())  # Drop any whitespace.
             match = self._re_process.match(s)
         if match:
             return super(Operator, self).process(match, context=context)
@@ -116,6 +116,9 @@ class Operator(Token):
 
 class Intersect(Operator):
     _re = regex.compile(r'^(?P<name>\s)\s*')
+
+    def process(self, match, context=None):
+        return {'name': ' '}  # Any whitespace is the intersection operator.
 
 
 class Separator(Operator):
